@@ -359,7 +359,7 @@ func init() {
 
 func c19Depth(tier string) int {
 	if tier == "thorough" {
-		return 4
+		return 5
 	}
 	return 3
 }
